@@ -39,7 +39,26 @@ func (m *C15) NewGhost(c *chain.Chain, ctx sdk.Context, s *chain.Snapshot) explo
 
 func (m *C15) OnStep(gh explore.Ghost, st *explore.Step) []V {
 	m.inner.OnStep(gh, st) // updates the ghost from the request
-	return nil
+	if !st.Res.OK || st.Act.Kind != explore.ActMsg {
+		return nil
+	}
+	// a content hash is EITHER raw OR graph data: one with both parts (or none) has no single IRI, so a
+	// message carrying it must not be accepted
+	var hs []*data.ContentHash
+	switch msg := st.Res.Msg.(type) {
+	case *data.MsgAnchor:
+		hs = append(hs, msg.ContentHash)
+	case *data.MsgRegisterResolver:
+		hs = msg.ContentHashes
+	}
+	var out []V
+	for i, h := range hs {
+		if h == nil || (h.Raw != nil) == (h.Graph != nil) {
+			out = append(out, V{Kind: "C15/on-chain/accepted-content-hash-with-both-or-no-parts",
+				Detail: fmt.Sprintf("%s: content hash %d has raw set=%v graph set=%v", st.Act.Label, i, h != nil && h.Raw != nil, h != nil && h.Graph != nil)})
+		}
+	}
+	return out
 }
 
 func (m *C15) OnState(gh explore.Ghost, c *chain.Chain, ctx sdk.Context, s *chain.Snapshot) []V {
